@@ -110,7 +110,10 @@ fn utoff_of(name: usize, version: u8) -> i32 {
     (name as i32 * 2 + version as i32) * 3600 + 1800
 }
 fn abbr_of(name: usize, version: u8) -> String {
-    format!("{}{}", ["AAA", "BBB", "CCC", "TWN"][name], ["V", "W"][version as usize - 1])
+    // the second version's data is a few bytes longer, so that toggling one
+    // zone's version shifts the position of every later zone inside the
+    // concatenated file while the number of zones stays the same
+    format!("{}{}", ["AAA", "BBB", "CCC", "TWN"][name], ["V", "WXYZ"][version as usize - 1])
 }
 
 #[derive(Clone, Copy, PartialEq, Eq, Debug, PartialOrd, Ord)]
@@ -1288,6 +1291,78 @@ fn replaced_during_read(r: &Report) {
     r.require(r.get_count("replaced_during_read_old_version_served_by_racing_lookup") > 0, "the racing lookup did read the old bytes through the pipe");
 }
 
+// ---------------------------------------------------------------------------
+// root-symlink: the database is opened on a path that is a symbolic link to
+// the zone directory (the usual way of switching tzdata versions atomically);
+// the link is re-pointed to another directory. "The zone data currently on
+// disk" is what the path given to `from_dir` leads to now: after `reset()` or
+// once the TTL has passed, lookups and `available()` must follow the link.
+// ---------------------------------------------------------------------------
+fn root_symlink(r: &Report) {
+    let sec = "root-symlink";
+    let root = PathBuf::from(format!("{}/lnk-{}", scratch_base(), std::process::id()));
+    let mut n = 0u64;
+    for (label, steps) in [("reset", &["reset"][..]), ("ttl", &["advance:301"][..]), ("ttl-then-reset", &["advance:301", "reset"][..]), ("half-get-half", &["advance:151", "get", "advance:151"][..])] {
+        n += 1;
+        let _ = std::fs::remove_dir_all(&root);
+        std::fs::create_dir_all(&root).unwrap();
+        let t0 = SystemTime::UNIX_EPOCH + Duration::from_secs(1_600_000_000);
+        let t1 = SystemTime::UNIX_EPOCH + Duration::from_secs(1_600_000_777);
+        for (dir, ver, mt, with_c) in [("v1", 1u8, t0, false), ("v2", 2u8, t1, true)] {
+            Disk::write_file(&root.join(dir).join("A/x"), &tiny_tzif(utoff_of(0, 1), &abbr_of(0, 1)), mt);
+            Disk::write_file(&root.join(dir).join("B"), &tiny_tzif(utoff_of(1, ver), &abbr_of(1, ver)), mt);
+            if with_c {
+                Disk::write_file(&root.join(dir).join("c/Y"), &tiny_tzif(utoff_of(2, 1), &abbr_of(2, 1)), mt);
+            }
+        }
+        let link = root.join("current");
+        std::os::unix::fs::symlink("v1", &link).unwrap();
+        let case = format!("root-symlink {}", label);
+        let res = guard(|| {
+            let db = TimeZoneDatabase::from_dir(&link).map_err(|e| e.to_string())?;
+            let o = |q: &str| db.get(q).ok().map(|t| observe(&t).0);
+            let first = (o("B"), o("c/Y"));
+            // re-point the link atomically
+            let tmp = root.join("current.tmp~");
+            std::os::unix::fs::symlink("v2", &tmp).map_err(|e| e.to_string())?;
+            std::fs::rename(&tmp, &link).map_err(|e| e.to_string())?;
+            for st in steps {
+                if let Some(secs) = st.strip_prefix("advance:") {
+                    jiff::__verif_advance_monotonic(Duration::from_secs(secs.parse().unwrap()));
+                } else if *st == "reset" {
+                    db.reset();
+                } else {
+                    let _ = db.get("B");
+                }
+            }
+            let last = (o("b"), o("C/y"));
+            let mut av: Vec<String> = db.available().map(|n| n.as_str().to_string()).collect();
+            av.sort();
+            Ok::<_, String>((first, last, av))
+        });
+        match res {
+            Err(pn) => r.viol(sec, &format!("get/{}", panic_sig(&pn)), case, pn),
+            Ok(Err(e)) => r.viol(sec, "open/fails", case, e),
+            Ok(Ok((first, last, av))) => {
+                if first != (Some(utoff_of(1, 1)), None) {
+                    r.viol(sec, "get/answer-not-admissible:before-the-link-moved", case.clone(), format!("{:?}", first));
+                }
+                if last != (Some(utoff_of(1, 2)), Some(utoff_of(2, 1))) {
+                    r.viol(sec, "get/answer-not-admissible:root-link-re-pointed", case.clone(), format!("after {:?}: (B, c/Y) = {:?}; the directory the path leads to holds B version 2 and c/Y", steps, last));
+                }
+                if av != vec!["A/x".to_string(), "B".to_string(), "c/Y".to_string()] {
+                    r.viol(sec, "available/not-the-names-on-disk:root-link-re-pointed", case, format!("{:?}", av));
+                }
+            }
+        }
+    }
+    let _ = std::fs::remove_dir_all(&root);
+    r.add_states(n);
+    r.add_transitions(n * 4);
+    r.add_validated(n * 5);
+    r.count("root_symlink_cases", n);
+}
+
 fn main() {
     let args: Vec<String> = std::env::args().collect();
     let worker = args.iter().position(|a| a == "--worker").map(|i| args[i + 1].clone());
@@ -1343,6 +1418,7 @@ fn main() {
     // parent: in-process sections, then worker processes whose result files are merged
     r.section("open-edge", || open_edge(&r));
     r.section("replaced-during-read", || replaced_during_read(&r));
+    r.section("root-symlink", || root_symlink(&r));
     r.section("seq-bundled", || seq_bundled(&r));
 
     let nworkers = 16u64;
